@@ -322,6 +322,9 @@ static void run_case(const Args& a, long i, const std::string& dir, Out& o) {
                       if (cp->get_nb_of_faces() < 4) { slot_routes["refiner_collapsed_cell_rebuilt"]++; cp = gen::make_cell_of_class(cls, m, (unsigned)k, types[cls]); } }   // a closed surface has at least 4 triangles
                 catch (const std::exception&) { slot_routes["refiner_threw_cell_rebuilt"]++; cp = gen::make_cell_of_class(cls, m, (unsigned)k, types[cls]); } }   // a pass that throws may leave the cell half-edited: start again from the mesh
         }
+        // the manual vertex removals can flatten a small cell (a closed surface that encloses no volume is not a cell and the initializer rejects it): start again from the mesh
+        { std::vector<orc::V3> P; std::vector<orc::Tri> T; gen::extract(*cp, P, T); orc::Geo ge = orc::geometry(P, T);
+          if (!(ge.volume > 1e-3L * ge.area * std::sqrt(ge.area))) { slot_routes["flat_after_slot_operations_cell_rebuilt"]++; cp = gen::make_cell_of_class(cls, m, (unsigned)k, types[cls]); } }
         cells.push_back(cp);
     }
     // ---- coordinate regimes 2..4: overwrite the stored positions (the cached areas/volumes keep their ordinary values)
